@@ -299,7 +299,7 @@ impl Transition {
             total_maintenance_violation,
             total_maintenance_counter,
             cycle_lookup,
-            empty_cycles: self.empty_cycles.clone(),
+            empty_cycles,
         }
     }
 
